@@ -235,6 +235,9 @@ class Engine:
             if name in fr:
                 v = fr[name]
                 if isinstance(v, Undefined):          # noqa: F405
+                    if name in getattr(self, "slice_outside_names", ()):
+                        raise Unsupported(f"local variable {name} is assigned outside the verified slice and the setup "
+                                          "of the contract does not provide it")
                     return Raised(ExcVal("UnboundLocalError", (name,)))
                 return v
         # closure frames of lambdas / nested functions
@@ -246,6 +249,9 @@ class Engine:
             return self.spec_builtins[name]
         cur = self.current_func[-1] if self.current_func else None
         if cur is not None and cur.node is not None and not self.spec_mode and "__closure__" not in st.frames[-1]:
+            if name in getattr(self, "slice_outside_names", ()):
+                raise Unsupported(f"local variable {name} is assigned outside the verified slice and the setup of the "
+                                  "contract does not provide it")
             if name in self.local_names(cur):
                 # a local helper function (`def helper(...)` inside the function under contract) that the
                 # executed slice did not define: a limitation of slicing, not an unbound local
